@@ -4,8 +4,8 @@ import random
 
 RFS_SRCS = ['dgsrfs.c', 'dsp_blas2.c', 'dmyblas2.c', 'lsame.c', 'pmemory.c', 'pdmemory.c', ('util.c', ['-Dsuperlu_abort_and_exit=real_superlu_abort_and_exit'])]
 
-def rfs_query(pid, n, pat, tr, maxcorr=1, group=1, timeout=300):
-    return Query('%s.rfs.n%d.p%x.t%d.c%d.g%d' % (pid, n, pat, tr, maxcorr, group), 'rfs_h.c', RFS_SRCS, defs={'N': n, 'PAT': hex(pat), 'TR': tr, 'MAXCORR': maxcorr, 'GROUP': group}, engine='smt', mode='real',
+def rfs_query(pid, n, pat, tr, maxcorr=1, group=1, nrhs=1, timeout=300):
+    return Query('%s.rfs.n%d.p%x.t%d.c%d.g%d.r%d' % (pid, n, pat, tr, maxcorr, group, nrhs), 'rfs_h.c', RFS_SRCS, defs={'N': n, 'PAT': hex(pat), 'TR': tr, 'MAXCORR': maxcorr, 'GROUP': group, 'NRHS': nrhs}, engine='smt', mode='real',
                  unwind=40, timeout=timeout, group='dgsrfs: residual sense and truthfulness of berr')
 
 def plan(tier, seed):
